@@ -39,7 +39,7 @@ Qed.
 Lemma action_woken : forall s a, Woken s ->
   Woken (f_action s a) /\ (f_pipe s <= f_pipe (f_action s a))%nat /\ (forall x, In x (f_pend s) -> In x (f_pend (f_action s a))).
 Proof.
-  intros s a H. destruct a as [ub cb|fd cond ub cb|sig ub cb|id|e|sig|]; cbn [f_action];
+  intros s a H. destruct a as [ub cb|fd cond ub cb|sig ub cb|id|e|sig| |]; cbn [f_action];
     try (split; [exact H|split; [apply le_n|intros x Hx; exact Hx]]).
   - destruct (cancel_fields s id) as [E1 E2]. unfold Woken. rewrite E1, E2. split; [exact H|split; [lia|auto]].
   - destruct (arrive_woken s sig H) as [A1 A2]. split; [exact A1|split; [exact A2|apply arrive_pend_incl]].
